@@ -301,11 +301,16 @@ class _AWriter:
         return None
 
     def write_eof(self) -> None:
+        self.eof_written = True
         if self.io.eof_at is None:
             self.io.eof_at = self.io.rec.t()
             self.io.rec.label("srvWriteEof")
 
     def write(self, data: bytes) -> None:
+        if getattr(self, "eof_written", False):
+            # what a real asyncio transport does: RuntimeError('Cannot call write() after write_eof()')
+            self.io.rec.label("srvWriteFail", len(data))
+            raise RuntimeError("Cannot call write() after write_eof()")
         if self.is_closed or self.io._fail:
             self.io.rec.label("srvWriteFail", len(data))
             raise ConnectionResetError()
@@ -408,7 +413,9 @@ class AsyncioIO(ClientIO):
 
 
 def run_asyncio(cfg: dict, alpn: Optional[str], client: Callable[[ClientIO], Awaitable[None]], scripts: List[list],
-                tail: float = 120.0, terminate_at: Optional[float] = None) -> dict:
+                tail: float = 120.0, terminate_at: Optional[float] = None,
+                wrap: Optional[Callable[[Rec, str], Any]] = None) -> dict:
+    # `wrap(rec, worker)` builds the application wrapper served instead of ASGIWrapper(make_app(scripts)) — e.g. a WSGIWrapper
     from hypercorn.app_wrappers import ASGIWrapper
     from hypercorn.asyncio.tcp_server import TCPServer
     from hypercorn.asyncio.worker_context import WorkerContext
@@ -423,7 +430,8 @@ def run_asyncio(cfg: dict, alpn: Optional[str], client: Callable[[ClientIO], Awa
         config = mkconfig(cfg, rec)
         io = AsyncioIO(rec, loop, alpn == "h2")
         ctx = WorkerContext(None)
-        srv = TCPServer(ASGIWrapper(make_app(scripts, rec, asyncio.sleep)), loop, config, ctx, {}, io.reader, io.writer)
+        served = wrap(rec, "asyncio") if wrap is not None else ASGIWrapper(make_app(scripts, rec, asyncio.sleep))
+        srv = TCPServer(served, loop, config, ctx, {}, io.reader, io.writer)
         task = loop.create_task(srv.run())
         done_at: List[int] = []
         task.add_done_callback(lambda t: (done_at.append(rec.t()), rec.label("handlerDone")))
@@ -481,7 +489,9 @@ def _finish(res: dict, rec: Rec, loop_errors: List[str], turns: int) -> dict:
 # trio
 # --------------------------------------------------------------------------------------------------------------
 def run_trio(cfg: dict, alpn: Optional[str], client: Callable[[ClientIO], Awaitable[None]], scripts: List[list],
-             tail: float = 120.0, terminate_at: Optional[float] = None) -> dict:
+             tail: float = 120.0, terminate_at: Optional[float] = None,
+             wrap: Optional[Callable[[Rec, str], Any]] = None) -> dict:
+    # `wrap(rec, worker)` builds the application wrapper served instead of ASGIWrapper(make_app(scripts)) — e.g. a WSGIWrapper
     import trio
     import trio.testing
     from hypercorn.app_wrappers import ASGIWrapper
@@ -633,7 +643,8 @@ def run_trio(cfg: dict, alpn: Optional[str], client: Callable[[ClientIO], Awaita
         config = mkconfig(cfg, rec)
         stream = SSLStream() if alpn == "h2" else Stream()
         ctx = WorkerContext(None)
-        srv = TCPServer(ASGIWrapper(make_app(scripts, rec, trio.sleep)), config, ctx, {}, stream)
+        served = wrap(rec, "trio") if wrap is not None else ASGIWrapper(make_app(scripts, rec, trio.sleep))
+        srv = TCPServer(served, config, ctx, {}, stream)
         done_at: List[int] = []
         err: List[Any] = []
 
